@@ -224,7 +224,9 @@ def file_case(draw):
     split_char = edge == "none" and snippet != "straddle" and draw(st.booleans())
     # bytes 1100..3000 are not text at all (a payload appended to a script): the head of the file decides that it is a text file
     bintail = where == "file" and snippet != "straddle" and draw(st.integers(0, 3)) == 0
-    return {"bintail": bintail, "split_char": split_char, "eol": eol, "head": head, "edge": edge, "edge_seg": edge_seg, "edge_pos": edge_pos, "tail": tail,
+    # mixed conventions: the lines after the head of the file end differently (a CR header pasted over a CRLF body ...)
+    eol_tail = draw(st.sampled_from([None, None, None, "\n", "\r\n", "\r"]))
+    return {"eol_tail": eol_tail if eol_tail != eol else None, "bintail": bintail, "split_char": split_char, "eol": eol, "head": head, "edge": edge, "edge_seg": edge_seg, "edge_pos": edge_pos, "tail": tail,
             "snippet": snippet, "bad": bad, "where": where, "nonascii_filler": nonascii_filler, "straddle": straddle}
 
 
@@ -275,6 +277,8 @@ def build_file(c):
                     out += ("x" * k + eol).encode()
         assert len(out) == n_bytes, (len(out), n_bytes)
 
+    if c.get("eol_tail"):
+        eol = c["eol_tail"]
     if c.get("bintail") and len(out) < 1000:
         import hashlib
 
@@ -369,7 +373,7 @@ def check_file(ctx, c):
         alltags = inside + outside
         ctx.count(data, nontrivial=any(t["form"] != "bare" for t in alltags) and bool(alltags),
                   labels=[f"eol:{c['eol']!r}", f"split-char-at-4096:{bool(c.get('split_char'))}", f"edge:{c['edge']}", f"snippet:{snippet}", f"bad:{'scanned' if bad else 'unscanned' if (bad_in or bad_out) else 'none'}",
-                          f"where:{c['where']}", f"outside-tags:{len(outside)}", f"binary-payload-after-1100:{bool(c.get('bintail'))}"],
+                          f"where:{c['where']}", f"outside-tags:{len(outside)}", f"binary-payload-after-1100:{bool(c.get('bintail'))}", f"mixed-eol:{bool(c.get('eol_tail'))}"],
                   sample={"eol": c["eol"], "edge": c["edge"], "edge_pos": c["edge_pos"], "snippet": c["snippet"], "bad": c["bad"], "where": c["where"],
                           "edge_line": c["edge_seg"]["lines"] if c["edge_seg"] else None, "size": len(data)})
         if (g_lic, g_cop) != (lic, cop):
